@@ -28,6 +28,7 @@ ROUND_TOL = "2e-19"
 ORACLE_ERR_MAX = "1e-30"
 KNOWN_SIG = "get_func_moment:Expt-typo:mixed-exp-trig"
 KNOWN_BETA = "get_trig_moment:Beta:cf-piecewise:frequency-0-derivative-dropped"
+KNOWN_DECIMAL = "FunctionalAssignment:decimal-literal-argument:float-arithmetic"
 
 
 def zero_freq_coefficient(b, c):
@@ -512,8 +513,9 @@ def gen_programs(ctx):
         body.append(["poly", "s", P((frnz(), {"s": 1, f: 1}), (fr(), {}))])
         out.append(("T3-mulacc", {"init": init, "body": body}, "s", goals_of([{"s": 1}, {"s": 2}]), True))
     # T4 constants (number, and variable holding a constant assigned in the loop)
-    for _ in range(n_each):
-        c1, c2 = frnz(), frnz()
+    for i4 in range(n_each):
+        # the grammar allows an unsigned NUMBER or a variable as argument: integers, decimals (i4 == 0), variables
+        c1, c2 = (rng.choice(["0.5", "1.25", "0.1"]) if i4 == 0 else str(rng.randint(0, 4))), frnz()
         f1, f2 = rng.choice(["Sin", "Cos", "Exp"]), rng.choice(["Sin", "Cos", "Exp"])
         body = [["func", "y", f1, c1], ["poly", "k", P((c2, {}))], ["func", "z", f2, "k"],
                 ["poly", "s", P(("1", {"s": 1}), ("1", {"y": 1, "z": 1}))]]
@@ -899,13 +901,20 @@ def run(ctx):
                            limit=9)
                 continue
             n, pv, tv = bad
+            val = polar_number(mp, pv)
             per_arg = {}
             for st in _flat(prog["body"]):
                 if st[0] == "func" and st[1] in mon:
                     per_arg.setdefault(st[3], set()).add(st[2])
             mixed = any("Exp" in fs and fs & {"Sin", "Cos"} for fs in per_arg.values())
             sig = KNOWN_SIG if mixed else f"program:{lab}:{g}:{json.dumps(prog, sort_keys=True)}"
-            if not mixed:
+            dec_args = [st[3] for st in _flat(prog["body"]) if st[0] == "func" and st[1] in _deps(prog, mon)
+                        and "." in st[3]]
+            if dec_args and val is not None and abs(val - mp.mpf(tv)) <= mp.mpf("1e-13") * max(1, abs(mp.mpf(tv))):
+                # f(decimal literal) evaluated in double precision: an error at the level of float rounding
+                sig = KNOWN_DECIMAL
+                what += f" — the argument {dec_args[0]} is a decimal literal and f({dec_args[0]}) was evaluated in float arithmetic"
+            elif not mixed:
                 # shape of the Beta finding: a Beta draw with an identity power >= 1 and an even total
                 # Sin/Cos power >= 2 of its functions in the goal (attribution by shape, thorough tier only)
                 for st in _flat(prog["body"]):
@@ -935,6 +944,17 @@ def run(ctx):
     ctx.coverage["program_histogram"] = labhist
     ctx.coverage["direct_calls"] = stats
     ctx.coverage["programs"] = pst
+
+
+def _deps(prog, mon):
+    """variables the goal monomial depends on through polynomial assignments of the body (one step is enough for
+    the generated shapes: accumulators read the functional variables directly)"""
+    vs = set(mon)
+    for st in _flat(prog["body"]):
+        if st[0] == "poly" and st[1] in vs:
+            for _, m in st[2]:
+                vs |= set(m)
+    return vs
 
 
 def _flat(body):
